@@ -101,6 +101,7 @@ type frRegistry struct {
 	log     []string
 	needTok   bool // every registry request must carry the bearer token
 	foldNames bool // repository names are looked up case-insensitively (as the real registry does)
+	chunk     int  // bytes delivered per body Read (default 4096)
 
 	// hook is called (without the lock) at every request and before every body chunk; it may block (crash harness)
 	hook func(ev string)
@@ -194,7 +195,11 @@ func (b *frBody) Read(p []byte) (int, error) {
 			return 0, b.ctx.Err()
 		}
 	}
-	n := min(len(p), limit-b.pos, 4096)
+	piece := 4096
+	if b.reg.chunk > 0 {
+		piece = b.reg.chunk
+	}
+	n := min(len(p), limit-b.pos, piece)
 	copy(p, b.data[b.pos:b.pos+n])
 	b.pos += n
 	return n, nil
